@@ -46,10 +46,20 @@ Definition ni_allowed (st : state) (S : N -> bool) (r : att_request) : bool :=
   | _ => true
   end.
 
+(** the hooks of the request do not themselves assign a characteristic of [S] (the application
+    changing a compared value is not the client reading it) *)
+Definition act_avoids (S : N -> bool) (a : option (N * bytes)) : bool :=
+  match a with Some (d, _) => negb (S (d + 1)) | None => true end.
+Definition acts_avoid (S : N -> bool) (hk : hook_oracle) : bool :=
+  let a := h_acts hk in
+  act_avoids S (ha_read a) && act_avoids S (ha_write a) && act_avoids S (ha_written a)
+  && act_avoids S (ha_written2 a) && act_avoids S (ha_sub a) && act_avoids S (ha_unsub a).
+
 Fixpoint session_allowed (st : state) (S : N -> bool) (s : session) : Prop :=
   match s with
   | [] => True
-  | x :: t => ni_allowed st S (fst x) = true /\ session_allowed (session_step st x) S t
+  | x :: t => ni_allowed st S (fst x) = true /\ acts_avoid S (snd x) = true
+              /\ session_allowed (session_step st x) S t
   end.
 
 (** no prepared write pending on an S-handle the client may write *)
@@ -70,6 +80,14 @@ Definition value_at (st : state) (h : N) : option bytes :=
   match lookup h (st_db st) with Some a => Some (a_value a) | None => None end.
 Definition is_value_handle (st : state) (h : N) : bool :=
   match lookup h (st_db st) with Some a => kind_eqb (a_kind a) KValue | None => false end.
+
+(** [h] is the value handle of a characteristic one of the request's hooks assigns itself *)
+Definition act_target (a : option (N * bytes)) (h : N) : bool :=
+  match a with Some (d, _) => d + 1 =? h | None => false end.
+Definition hook_assigns (hk : hook_oracle) (h : N) : bool :=
+  let a := h_acts hk in
+  act_target (ha_read a) h || act_target (ha_write a) h || act_target (ha_written a) h
+  || act_target (ha_written2 a) h || act_target (ha_sub a) h || act_target (ha_unsub a) h.
 
 (** * Notifications *)
 
@@ -128,7 +146,9 @@ Fixpoint history_ok (st : state) (t : sub_table) (evs : list event) : Prop :=
   | [] => True
   | ev :: r =>
       let x := step V_fixed st ev in
-      Forall (fun p => notif_ok st t p = true) (r_out x)
+      (* checked against the table AFTER the step: a 'subscribed' hook may update the characteristic
+         the client has just subscribed to *)
+      Forall (fun p => notif_ok st (ref_step st t ev) p = true) (r_out x)
       /\ history_ok (r_state x) (ref_step st t ev) r
   end.
 
@@ -136,7 +156,7 @@ Fixpoint history_ok (st : state) (t : sub_table) (evs : list event) : Prop :=
 Definition ev_ok (st : state) (ev : event) : bool :=
   match ev with
   | EvReq r hk => wf_request (mtu_of st) r && wf_hooks hk
-  | EvAppSet _ v _ => wf_bytes v
+  | EvAppSet _ v hk => wf_bytes v
   | _ => true
   end.
 Fixpoint history_inputs_ok (st : state) (evs : list event) : Prop :=
